@@ -66,6 +66,7 @@ type cell struct {
 type frame struct {
 	vars    map[string]*cell
 	file    int
+	visible map[string]bool // function frames: names of the file's globals defined before the function
 	reads   map[interface{}]struct{}
 	cwrites map[interface{}]struct{}
 	ranging map[*SliceObj]int
@@ -98,28 +99,30 @@ type Result struct {
 type NativeFunc func(args []Value) []Value
 
 type Interp struct {
-	Width       int
-	MaxSteps    int
-	prog        *Program
-	out         strings.Builder
-	steps       int
-	feats       map[string]int
-	overflow    bool
-	bigLiteral  bool
-	globals     []map[string]*cell
-	funcs       []map[string]*FuncDecl
-	imports     []map[string]int // alias -> file index (-1 => native)
-	natives     []map[string]string
-	ran         []bool
-	frames      []*frame
-	retVals     []Value
-	FS          map[string][]byte
-	Dirs        map[string]bool
-	Natives     map[string]map[string]NativeFunc // module name -> functions
-	maxSlice    int
-	switchDepth int
-	Stdin       []string // lines for input()
-	stdinPos    int
+	Width         int
+	MaxSteps      int
+	prog          *Program
+	out           strings.Builder
+	steps         int
+	feats         map[string]int
+	overflow      bool
+	bigLiteral    bool
+	globals       []map[string]*cell
+	funcs         []map[string]*FuncDecl
+	funcVisible   map[*FuncDecl]map[string]bool
+	properGlobals map[int]map[string]bool
+	imports       []map[string]int // alias -> file index (-1 => native)
+	natives       []map[string]string
+	ran           []bool
+	frames        []*frame
+	retVals       []Value
+	FS            map[string][]byte
+	Dirs          map[string]bool
+	Natives       map[string]map[string]NativeFunc // module name -> functions
+	maxSlice      int
+	switchDepth   int
+	Stdin         []string // lines for input()
+	stdinPos      int
 	// AppHook runs a command chain: stages[i] = [name, args...]; returns stdout and exit status.
 	AppHook func(stages [][]string) (string, int)
 }
@@ -607,7 +610,7 @@ func (it *Interp) call(fr *frame, x Call) []Value {
 	if len(it.frames) > 1 {
 		it.feat("nestedcall")
 	}
-	nf := &frame{vars: map[string]*cell{}, file: file}
+	nf := &frame{vars: map[string]*cell{}, file: file, visible: it.funcVisible[fd]}
 	for i, p := range fd.Params {
 		nf.vars[p.Name] = &cell{v: args[i]}
 	}
@@ -687,10 +690,30 @@ func (it *Interp) exec(fr *frame, s Stmt, top bool) ctl {
 	case FuncDecl:
 		fd := x
 		it.funcs[fr.file][x.Name] = &fd
+		if it.funcVisible == nil {
+			it.funcVisible = map[*FuncDecl]map[string]bool{}
+		}
+		vis := map[string]bool{}
+		for n := range it.properGlobals[fr.file] {
+			vis[n] = true
+		}
+		it.funcVisible[&fd] = vis
 		return ctlNone
 	case VarDecl:
 		it.beginUnit(fr)
 		it.feat("vardecl")
+		if top {
+			// defined at top level outside every block: a global that later functions of the file see
+			if it.properGlobals == nil {
+				it.properGlobals = map[int]map[string]bool{}
+			}
+			if it.properGlobals[fr.file] == nil {
+				it.properGlobals[fr.file] = map[string]bool{}
+			}
+			for _, n := range x.Names {
+				it.properGlobals[fr.file][n] = true
+			}
+		}
 		if len(x.Values) == 0 {
 			for _, n := range x.Names {
 				it.define(fr, n, zeroValue(x.Type))
@@ -699,6 +722,17 @@ func (it *Interp) exec(fr *frame, s Stmt, top bool) ctl {
 		}
 		vals := it.evalMulti(fr, x.Values, len(x.Names))
 		for i, n := range x.Names {
+			// the language has no shadowing: in a short definition of several names inside a function, a name
+			// that is a global defined before the function is that global (at least one other name is new)
+			if x.Short && len(x.Names) > 1 && fr.visible != nil && fr.visible[n] {
+				if _, local := fr.vars[n]; !local {
+					if _, ok := it.globals[fr.file][n]; ok {
+						it.feat("partial-definition-reuses-global")
+						it.setVar(fr, n, vals[i])
+						continue
+					}
+				}
+			}
 			it.define(fr, n, vals[i])
 		}
 		return ctlNone
